@@ -138,8 +138,61 @@ def run(ctx, res):
     else:
         ins = [(bi, t) for bi, t in inserts if bi in none_region]
         res.floor("IMPORT-FILTER", "inserts into the importer's values (unqualified branch)", len(ins), 1)
+        def filtered_collect(v):
+            """local v is `<iter>.filter(|..| exported_syms.contains(..))[.map(..)].collect()`."""
+            d = h.single_def(v)
+            if d is None or d[1] != "term" or not (M.callee_name(d[2]) or "").endswith("::collect"):
+                return False
+            cur = d[2]
+            for _ in range(6):
+                if not cur["args"]:
+                    return False
+                r = h.root_of(cur["args"][0], through_named=True)
+                if r[0] != "call":
+                    return False
+                cur = r[2]
+                n = M.callee_name(cur) or ""
+                if n.endswith("Iterator::filter") and len(cur["args"]) > 1:
+                    cr = h.root_of(cur["args"][1], through_named=True)
+                    cpath = None
+                    if cr[0] == "rv" and cr[3]["rv"]["k"] == "agg" and cr[3]["rv"].get("ak") == "closure":
+                        cpath = cr[3]["rv"]["def"]
+                    elif cr[0] == "const" and "closure" in cr[1]:
+                        cpath = cr[1]["closure"]
+                    c = P.fn(cpath) if cpath else None
+                    if c is None:
+                        return False
+                    cs = [(bi, t) for bi, t in D.calls_named(c, "::contains", None)]
+                    cs = [(bi, t) for bi, t in cs if any("exported_syms" in str(c.field_path(c.root_of(a, through_named=True)[1]))
+                                                       for a in t["args"][:1] if c.root_of(a, through_named=True)[0] == "place")]
+                    # the closure's result is exactly the contains() result
+                    return len(cs) == 1 and cs[0][1]["dest"]["l"] == 0 and not cs[0][1]["dest"]["p"]
+                if not n.endswith(("Iterator::map", "Iterator::cloned", "Iterator::copied")):
+                    return False
+            return False
+
         if len(sws) != 1:
-            res.bad("IMPORT-FILTER", h.path + " # visibility-test", "expected one exported_syms.contains test, found %d" % len(sws), h.loc())
+            # iterator form: the values inserted come from a Vec built by filter(exported_syms.contains).collect()
+            ok_all = bool(ins)
+            for bi, t in ins:
+                src_vecs = set()
+                for (head, a, body) in D.natural_loops(h):
+                    if bi not in body:
+                        continue
+                    for lb in body:
+                        tt = h.blocks[lb]["term"]
+                        if tt["t"] == "call" and (M.callee_name(tt) or "").endswith("::next"):
+                            it = h.root_of(tt["args"][0], through_named=True)
+                            if it[0] == "call" and (M.callee_name(it[2]) or "").endswith("into_iter"):
+                                v = h.root_of(it[2]["args"][0])
+                                if v[0] == "place" and not v[1]["p"]:
+                                    src_vecs.add(v[1]["l"])
+                if not src_vecs or not all(filtered_collect(v) for v in src_vecs):
+                    ok_all = False
+            if ok_all and len(sws) == 0:
+                res.ok("IMPORT-FILTER", h.path + " # insert from a Vec collected through filter(exported_syms.contains)")
+            else:
+                res.bad("IMPORT-FILTER", h.path + " # visibility-test", "expected one exported_syms.contains test, found %d" % len(sws), h.loc())
         else:
             sw = sws[0]
             dom = D.edge_dominated(h, sw["bb"], sw["true"])
